@@ -6,6 +6,13 @@ RULE = ("statements as for C01 restricted by Portable(s) (feature subset common 
         "(identifier quotes, literals, placeholders, set-operation parentheses, ROW(..), IFNULL/COALESCE, GREATEST/MAX, LEAST/MIN, CHAR_LENGTH/LENGTH, RAND/RANDOM) and requires token equality with the SQLite rendering; "
         "each rendering is also parsed with its own dialect's clause grammar and precedence table (EngineGrammar) and must denote the statement built; the three texts (inline, and parameterised with the bound values) are executed on the real SQLite over the fixture and must return the same rows and table contents — this is what checks MySQL's NULLS FIRST/LAST emulation; non-trivial = at least two bound values")
 st = {"portable": 0, "executed": 0, "agree": 0, "not_executable": 0}
+def _field_order_with_nulls(x):
+    """is there an ORDER BY item with Order::Field and a NULLS ordering anywhere in the statement?"""
+    if isinstance(x, list): return any(_field_order_with_nulls(y) for y in x)
+    if isinstance(x, dict):
+        if x.get("op") == "order_by" and isinstance(x.get("o"), dict) and x["o"].get("d") == "Field" and x.get("nulls"): return True
+        return any(_field_order_with_nulls(v) for v in x.values() if isinstance(v, (dict, list)))
+    return False
 def per_record(r, v):
     c = v.get("c09", {})
     if not c.get("portable"): return []
@@ -43,7 +50,13 @@ def per_record(r, v):
                     out.append("C09/%s/parameterised_form_not_bindable" % B)
                 ok = False      # otherwise: a restriction of the SQLite proxy (e.g. expression ORDER BY terms in a compound select), not decidable here
             elif not (Z[2] == S[2] and (Z[1] == S[1] or sorted(Z[1], key=repr) == sorted(S[1], key=repr) and not (ordered and c.get("nulls")))):
-                out.append("C09/%s/rows_differ_from_sqlite/%s" % (B, name)); ok = False
+                # diagnosed cause: MySQL's emulation tests the column (`c IS NULL`), the native form applies NULLS FIRST / LAST
+                # to the CASE expression Order::Field is written as, which is never NULL
+                if B == "mysql" and _field_order_with_nulls(r["stmt"]):
+                    out.append("C09/mysql/rows_differ_from_sqlite/field_order_with_nulls")
+                else:
+                    out.append("C09/%s/rows_differ_from_sqlite/%s" % (B, name))
+                ok = False
     if ok: st["agree"] += 1
     return out
 def run(tier, replay_path=None):
